@@ -305,7 +305,8 @@ func (l *loader) loadMessageReceivers(msg *Message, pReceivers []*acmelibv1.Mess
 
 func (l *loader) loadSignalPayload(pSigPayload *acmelibv1.SignalPayload) map[string]int {
 	sigMap := make(map[string]int)
-	for _, pRef := range pSigPayload.Refs {
+	// the payload is absent when the message or the group holds no signal
+	for _, pRef := range pSigPayload.GetRefs() {
 		sigMap[pRef.SignalEntityId] = int(pRef.RelStartBit)
 	}
 	return sigMap
